@@ -18,6 +18,29 @@ CHECKS = {
    note="bounded: documents up to 7 (quick) / 8 (thorough) events exhaustively over 2 anchor names, random up to 40/80 "
         "events beyond; untyped target, LastWins; " + TRUST,
    technique="TLA+ model (LiveEvents.tla) checked by TLC + TLC trace validation of recorded from_str calls against YamlModel!ExpandAll"),
+ "C03": dict(
+   category="model_checking",
+   text="MapAccess.tla states merge semantics declaratively by precedence (own keys first, then the last `<<` entry / last "
+        "sequence element that provides a key, recursively); TLC checks the operational machine that mirrors "
+        "MA::next_key_seed (seen / pending / merge_stack / flushing) against it for every root mapping up to a bound and "
+        "all three policies, and the same declarative operators decide every recorded from_str call (inline, block and "
+        "anchored-source renderings, plus random nested merge structures) in a TLA+ trace validator.",
+   design_ref="DESIGN.md section 4 C03",
+   note="bounded: root mappings up to 10 (quick) / 13 (thorough) events exhaustively; random merge trees of depth <= 3; "
+        "merge sources that repeat a key internally are treated as unconstrained; " + TRUST,
+   technique="TLA+ model (MapAccess.tla, MapAccessMachine.tla) checked by TLC + TLC trace validation of recorded calls against MapAccess!Conf"),
+ "C04": dict(
+   category="model_checking",
+   text="Same specification as C03 with the duplicate-key policies in focus: key identity is the structural fingerprint "
+        "(text + tag, style ignored), Error must fail at the repeated key (class and, for alias-free texts, line/column are "
+        "checked), FirstWins must deliver the document without later entries (the machine's skip_one_node cursor invariant "
+        "is model-checked), LastWins delivers all; scalar, sequence and mapping keys, near-identical key pools and large "
+        "values after the repeated key are generated and every recorded call is decided by the TLA+ trace validator.",
+   design_ref="DESIGN.md section 4 C04",
+   note="bounded: root mappings up to 9 (quick) / 12 (thorough) events with scalar and sequence keys exhaustively; mapping keys "
+        "and 200-1000 event values by random generation; known finding C04-kemn-key is suppressed only for documents containing "
+        "such a key; " + TRUST,
+   technique="TLA+ model (MapAccess.tla) checked by TLC + TLC trace validation of recorded calls against MapAccess!Conf / Faults"),
 }
 
 NOT_YET = "check not built yet (work in progress); it will be claimed once its TLA+ model and conformance harness are registered"
